@@ -27,7 +27,14 @@ import (
 //                       not yet handed out batches, in acceptance order
 //   reject            : a submission answered with an error (foreign id, full) or an empty submission
 //                       performs no durable write and is never handed out
-//   bound             : never more than max batches pending (max > 0)
+//   bound             : an ADMISSION bound: no submission is accepted while max batches are pending (max > 0, the bound
+//                       the running process was started with).  A node restarted with a smaller bound than the number
+//                       of pending batches must still hand all of them out ("survive a restart" wins over the bound).
+//
+// Datastore errors (fail put= del=) are outside the property's quantifier ("crash between any two durable writes").
+// A failing Put is harmless and fully monitored (refused, nothing written, never handed out).  After a failing Delete
+// the record of a handed-out batch stays: the crash-point probes are suspended for the rest of the scenario and the
+// monitor stops at the next restart (the in-lifetime FIFO / exactly-once checks go on).
 
 const (
 	// known findings (known-findings.json)
@@ -57,6 +64,8 @@ type monitor struct {
 	crashRemoved    string
 	crashRemovedSet bool
 	restarts        int
+	forgotten       map[string]int // contents reported lost at a restart (and forgotten): must never turn up again
+	stale           bool           // a Delete failed: the datastore holds the record of a handed-out batch (outside the quantifier)
 	off       bool // monitoring suspended (an empty batch was put into a bare queue: not distinguishable from "no batch")
 
 	lastWrites int // number of atomic writes already probed
@@ -64,7 +73,7 @@ type monitor struct {
 }
 
 func newMonitor(c *hx.Ctx, w *world) *monitor {
-	return &monitor{c: c, w: w, delivered: map[string]int{}, rejected: map[string]bool{}, rec: map[string]bool{}}
+	return &monitor{c: c, w: w, delivered: map[string]int{}, rejected: map[string]bool{}, rec: map[string]bool{}, forgotten: map[string]int{}}
 }
 
 func content(txs [][]byte) string { return hx.HexList(txs) }
@@ -123,7 +132,7 @@ func (m *monitor) onSubmit(id []byte, txs [][]byte, out string, before map[strin
 		m.pending = append(m.pending, pend{txs: txs, c: c, dup: dup})
 		m.rec[c] = true
 		delete(m.rejected, c)
-	case "skip-empty", "err:id", "err:full", "err:other":
+	case "skip-empty", "err:id", "err:full", "err:store", "err:other":
 		cls := strings.TrimPrefix(out, "err:")
 		if wrote {
 			m.c.Report("C10/reject/"+cls+"-wrote-to-datastore", "a submission answered "+out+" changed the datastore")
@@ -192,6 +201,8 @@ func (m *monitor) onNext(id []byte, txs [][]byte, out string, before map[string]
 			m.c.Report("C10/exactly-once/handed-out-twice", "a batch was handed out twice")
 		case m.rejected[c]:
 			m.c.Report("C10/reject/refused-batch-handed-out", "a batch whose submission was refused was handed out")
+		case m.forgotten[c] > 0:
+			m.c.Report("C10/durable/lost-batch-resurfaces-late", "a batch that an earlier restart did not bring back is handed out after a later restart, behind batches accepted after it")
 		default:
 			m.c.Report("C10/fifo/phantom-batch", "a batch that was never accepted was handed out")
 		}
@@ -206,7 +217,7 @@ func (m *monitor) onNext(id []byte, txs [][]byte, out string, before map[string]
 // onCrashedNext: the process died during GetNextBatch after the call's writes became durable and before the call
 // returned.  Nothing was handed out.  What the dying call had taken out of the queue is remembered for the cause
 // classification at the restart that follows.
-func (m *monitor) onCrashedNext(id []byte, txs [][]byte, out string, nBefore int) {
+func (m *monitor) onCrashedNext(id []byte, txs [][]byte, out string, nBefore int, deleted bool) {
 	if m.off {
 		return
 	}
@@ -222,10 +233,18 @@ func (m *monitor) onCrashedNext(id []byte, txs [][]byte, out string, nBefore int
 			return
 		}
 	}
-	if txs == nil {
-		return
+	if txs == nil || !deleted {
+		return // nothing was taken out of the durable queue
 	}
 	m.crashRemoved, m.crashRemovedSet = content(txs), true
+}
+
+// onFailedDelete: an injected Delete fault was consumed by the last GetNextBatch.
+func (m *monitor) onFailedDelete() {
+	if !m.stale {
+		m.c.Hit("monitor:probes-suspended-after-failed-delete")
+	}
+	m.stale = true
 }
 
 // explain answers whether the loss of want-have batches with contents c at a restart is exactly what the known
@@ -259,12 +278,12 @@ func (m *monitor) explain(c string, pending []pend, want, have int, crashHead st
 }
 
 // probe restarts a sequencer on a copy of `img` and returns everything it hands out.
-func (m *monitor) probe(img map[string][]byte) ([][][]byte, bool) {
+func (m *monitor) probe(img map[string][]byte, max int) ([][][]byte, bool) {
 	cp := make(map[string][]byte, len(img))
 	for k, v := range img {
 		cp[k] = append([]byte(nil), v...)
 	}
-	p, err := m.w.clone(cp)
+	p, err := m.w.clone(cp, max)
 	if err != nil {
 		m.c.Report("C10/start/"+classify(err), "a sequencer does not start on the durable image: "+err.Error())
 		return nil, false
@@ -283,7 +302,8 @@ func (m *monitor) probe(img map[string][]byte) ([][][]byte, bool) {
 // judge compares what a restart on a durable image hands out with the pending batches.
 // It returns the contents that did not survive.  With report=false it only answers whether the image is consistent.
 // crashHead: contents of the oldest pending batch if the process died in a GetNextBatch that had removed it ("" otherwise).
-func (m *monitor) judge(got [][][]byte, pending []pend, report bool, crashHead string) (lost map[string]int, okAll bool) {
+// max: the bound the restarted sequencer was given.
+func (m *monitor) judge(got [][][]byte, pending []pend, report bool, crashHead string, max int) (lost map[string]int, okAll bool) {
 	okAll = true
 	want := map[string]int{}
 	for _, p := range pending {
@@ -326,6 +346,8 @@ func (m *monitor) judge(got [][][]byte, pending []pend, report bool, crashHead s
 				m.c.Report("C10/exactly-once/handed-out-again-after-restart", "a batch that had been handed out is handed out again by a restarted sequencer")
 			case m.rejected[c]:
 				m.c.Report("C10/reject/refused-batch-handed-out", "a batch whose submission was refused is handed out by a restarted sequencer")
+			case m.forgotten[c] > 0:
+				m.c.Report("C10/durable/lost-batch-resurfaces-late", "a batch that an earlier restart did not bring back is handed out by a later restart, behind batches accepted after it")
 			default:
 				m.c.Report("C10/fifo/phantom-batch", "a restarted sequencer hands out a batch that was never accepted")
 			}
@@ -373,10 +395,11 @@ func (m *monitor) judge(got [][][]byte, pending []pend, report bool, crashHead s
 			}
 		}
 	}
-	if m.w.max > 0 && len(got) > m.w.max {
+	// admission bound: what was pending must come back even above a smaller new bound; anything beyond that is too much
+	if max > 0 && len(got) > max && len(got) > len(pending) {
 		okAll = false
 		if report {
-			m.c.Report("C10/bound/exceeded-after-restart", fmt.Sprintf("a restarted sequencer holds %d batches (max %d)", len(got), m.w.max))
+			m.c.Report("C10/bound/exceeded-after-restart", fmt.Sprintf("a restarted sequencer holds %d batches (max %d, %d were pending)", len(got), max, len(pending)))
 		}
 	}
 	return
@@ -394,12 +417,21 @@ func (m *monitor) beforeRestart(img map[string][]byte) {
 	if m.off {
 		return
 	}
+	if m.stale {
+		// a Delete failed earlier: what a restart does with the stale record is outside the property's quantifier
+		m.off = true
+		m.c.Hit("monitor-off:restart-after-failed-delete")
+		return
+	}
 	m.restarts++
-	got, ok := m.probe(img)
+	got, ok := m.probe(img, m.w.max)
 	if !ok {
 		return
 	}
-	m.judge(got, m.pending, true, crashHead)
+	lost, _ := m.judge(got, m.pending, true, crashHead, m.w.max)
+	for c, n := range lost {
+		m.forgotten[c] += n
+	}
 	left := map[string]int{}
 	for _, p := range m.pending {
 		left[p.c]++
@@ -427,7 +459,7 @@ func (m *monitor) sync() {
 // the last one must restart into exactly the pending batches; an intermediate one (an operation
 // that performs several atomic writes) into the pending batches before or after the operation.
 func (m *monitor) afterOp() {
-	if m.off {
+	if m.off || m.stale {
 		return
 	}
 	ds := m.w.ds
@@ -436,7 +468,7 @@ func (m *monitor) afterOp() {
 		m.lastWrites = 0
 	}
 	for k := m.lastWrites + 1; k < n; k++ {
-		got, ok := m.probe(ds.ImageAt(k))
+		got, ok := m.probe(ds.ImageAt(k), m.w.max)
 		if !ok {
 			continue
 		}
@@ -444,17 +476,26 @@ func (m *monitor) afterOp() {
 		for _, c := range m.prevPend {
 			before = append(before, pend{c: c})
 		}
-		_, okBefore := m.judge(got, before, false, "")
-		_, okAfter := m.judge(got, m.pending, false, "")
+		_, okBefore := m.judge(got, before, false, "", m.w.max)
+		_, okAfter := m.judge(got, m.pending, false, "", m.w.max)
 		if !okBefore && !okAfter {
-			m.judge(got, m.pending, true, "")
+			m.judge(got, m.pending, true, "", m.w.max)
 			m.c.Report("C10/crash/intermediate-image-inconsistent", "the durable image between two writes of one operation restarts into neither the state before nor after the operation")
 		}
 		m.c.Hit("probe:intermediate")
 	}
-	if got, ok := m.probe(ds.Image()); ok {
-		m.judge(got, m.pending, true, "")
+	if got, ok := m.probe(ds.Image(), m.w.max); ok {
+		m.judge(got, m.pending, true, "", m.w.max)
 		m.c.Hit("probe:boundary")
+	}
+	// the same crash point, the node restarted with a SMALLER bound than the number of pending batches:
+	// everything pending must still come back (the bound is an admission bound)
+	if n := len(m.pending); n >= 2 {
+		small := n - 1
+		if got, ok := m.probe(ds.Image(), small); ok {
+			m.judge(got, m.pending, true, "", small)
+			m.c.Hit("probe:boundary-smaller-bound")
+		}
 	}
 	m.sync()
 }
